@@ -1,3 +1,3 @@
 From Coq Require Import ExtrOcamlBasic.
-From ChibiV Require Import Common.ExtractBase C20.Re C20.Nfa C20.NfaOrd.
-Extraction "model.ml" ext_base matchb searchb search_span has_nongreedy left_anchored fold_spans check_spans count_subs fold is_word cs_mem anchor_ok expand_reps match_ge compile_top loop_tr loop_tr_ord result_of run nfa_spans to_sre.
+From ChibiV Require Import Common.ExtractBase C20.Re C20.Nfa C20.NfaOrd C20.NfaSem.
+Extraction "model.ml" ext_base matchb searchb search_span has_nongreedy left_anchored fold_spans check_spans count_subs fold is_word cs_mem anchor_ok expand_reps match_ge compile_top loop_tr loop_tr_ord result_of run nfa_spans to_sre wf_x ngs.
